@@ -191,6 +191,82 @@ def add_conversions(u, dim):
             'res.ctrl1.x.v@ == ' + ks, 'res.ctrl1.y.v@ == 1real', 'res.end.x.v@ == 0real', 'res.end.y.v@ == 1real']))
 
 
+def add_more_conversions(u, dim):
+    """quadratic from a line segment, both degrees from a Range of points, LineSegment from a Range"""
+    q, c = Curve(2, dim), Curve(3, dim)
+    sh = q.sh
+    f = sh.fields
+    hdr = 'impl<T: Real> From<LineSegment%d<T>> for %s<T>' % (dim, q.name)
+    s0, s1 = SV.of(sh, 'line_segment.start'), SV.of(sh, 'line_segment.end')
+    ens = []
+    for pn, pt in zip(q.pts, [s0, SV([(s0[k] + s1[k]) / const(2) for k in range(dim)]), s1]):
+        ens += ['res.%s.%s.v@ == %s' % (pn, x, X.verus(pt[k])) for k, x in enumerate(f)]
+    u.take_impl(q.path, hdr, {'from': C(ensures=ens)})
+    # Range<Point>: LineSegment::from(range) keeps start and end; the curves go through that segment
+    G = 'geom::repr_c'
+    hl = 'impl<T> From<Range<%s<T>>> for LineSegment%d<T>' % (sh.name, dim)
+    u.take_impl(G, hl, {'from': C(ensures=['res.start == range.start', 'res.end == range.end'])}, mode='G')
+    r0, r1 = SV.of(sh, 'range.start'), SV.of(sh, 'range.end')
+    hq = 'impl<T: Real> From<Range<Point<T>>> for %s<T>' % q.name
+    ens = []
+    for pn, pt in zip(q.pts, [r0, SV([(r0[k] + r1[k]) / const(2) for k in range(dim)]), r1]):
+        ens += ['res.%s.%s.v@ == %s' % (pn, x, X.verus(pt[k])) for k, x in enumerate(f)]
+    u.take_impl(q.path, hq, {'from': C(ensures=ens)})
+    hc = 'impl<T: Real + Lerp<T, Output = T>> From<Range<Point<T>>> for %s<T>' % c.name
+    th = ONE / const(3)
+    seg = [r0, SV([r0[k] + th * (r1[k] - r0[k]) for k in range(dim)]), SV([r0[k] + (th + th) * (r1[k] - r0[k]) for k in range(dim)]), r1]
+    ens = []
+    for pn, pt in zip(c.pts, seg):
+        ens += ['res.%s.%s.v@ == %s' % (pn, x, X.verus(pt[k])) for k, x in enumerate(f)]
+    u.take_impl(c.path, hc, {'from': C(ensures=ens)})
+
+
+def add_dim_conversions(u, deg):
+    """2D -> 3D (z = 0) and 3D -> 2D (z dropped): `c.into_vector().map(Into::into).into()`"""
+    c2, c3 = Curve(deg, 2), Curve(deg, 3)
+    ens = []
+    for pn in c2.pts:
+        ens += ['res.%s.x == c.%s.x' % (pn, pn), 'res.%s.y == c.%s.y' % (pn, pn), 'res.%s.z.v@ == 0real' % pn]
+    u.take_impl(c2.path, 'impl<T: Zero> From<%s<T>> for %s<T>' % (c2.name, c3.name), {'from': C(ensures=ens)})
+    u.take(c2.path, 'impl<T: Zero> %s<T>' % c2.name, 'into_3d', C(ensures=[e.replace('c.', 'self.') for e in ens]))
+    ens = []
+    for pn in c2.pts:
+        ens += ['res.%s.x == c.%s.x' % (pn, pn), 'res.%s.y == c.%s.y' % (pn, pn)]
+    u.take_impl(c3.path, 'impl<T> From<%s<T>> for %s<T>' % (c3.name, c2.name), {'from': C(ensures=ens)}, mode='G')
+    u.take(c3.path, 'impl<T> %s<T>' % c3.name, 'into_2d', C(ensures=[e.replace('c.', 'self.') for e in ens]), mode='G')
+
+
+COEF = {2: [[1, 0, 0], [-2, 2, 0], [1, -2, 1]], 3: [[1, 0, 0, 0], [-3, 3, 0, 0], [3, -6, 3, 0], [-1, 3, -3, 1]]}
+
+
+def matrix_lemma(deg):
+    ps = [var('p%d' % i) for i in range(deg + 1)]
+    t = var('t')
+    pw = [ONE, t, t * t, t * t * t][:deg + 1]
+    cs = [X.sum_([pw[i] * const(COEF[deg][i][j]) for i in range(deg + 1)]) for j in range(deg + 1)]
+    return L.Lemma('lemma_bezier%d_matrix_form' % deg, ps + [t], [],
+                   [X.sum_([cs[j] * ps[j] for j in range(deg + 1)]).eq(bern(deg, [SV([q]) for q in ps], t)[0])],
+                   doc='[1, t, .., t^n] * M * P is the Bernstein form')
+
+
+def add_matrix_form(u, cv, lm):
+    """the coefficient matrix M (rows = powers of t, columns = control points): [1, t, t^2(, t^3)] * M * P == evaluate(t)"""
+    from shapes import mat
+    deg = cv.deg
+    ms = mat(deg + 1, 'rows')
+    ens = ['%s.v@ == %s' % (ms.at('res', i, j), X.verus(const(COEF[deg][i][j]))) for i in range(deg + 1) for j in range(deg + 1)]
+    u.take(cv.path, 'impl<T: Real> %s<T>' % cv.name, 'matrix', C(ensures=ens))
+    VK = vecK(cv)
+    kf = VK.fields
+    pw = ['R::one()', 't', 't * t', 't * t * t'][:deg + 1]
+    body = ('    let m = %s::matrix();\n    let tv = %s::new(%s);\n    let c = tv * m;\n    let e = b.evaluate(t);\n'
+            '    proof { %s }\n'
+            % (cv.name, VK.name, ', '.join(pw),
+               ' '.join('crate::%s(%s, t.v@);' % (lm.name, ', '.join('b.%s.%s.v@' % (q, x) for q in cv.pts)) for x in cv.sh.fields)))
+    asserts = ['%s == e.%s.v@' % (' + '.join('c.%s.v@ * b.%s.%s.v@' % (kf[j], cv.pts[j], x) for j in range(deg + 1)), x) for x in cv.sh.fields]
+    u.add(cv.path, thm_fn('thm_matrix_form_%s' % cv.name.lower(), ['b: %s<R>' % cv.name, 't: R'], [], body, asserts, 'C14'))
+
+
 def circle_lemma():
     t, rho = var('t'), var('rho')
     k = (const(2) + const(2)) * (rho - ONE) / const(3)
@@ -373,7 +449,12 @@ def mat_unit(exp, name, deg, lsd):
         u.take(cv.path, 'impl<T: Real> %s<T>' % cv.name, 'evaluate', C(ensures=veq(cv.sh, 'res', bern(deg, cv.points('self'), t))))
         add_vector_forms(u, cv)
         add_mat_theorems(u, cv, la)
-    return u, [la]
+    add_dim_conversions(u, deg)
+    lmx = matrix_lemma(deg)
+    u.add_root(lmx.verus_text('C14'))
+    for dim in (2, 3):
+        add_matrix_form(u, Curve(deg, dim), lmx)
+    return u, [la, lmx]
 
 
 def plan(exp, tier):
@@ -408,6 +489,7 @@ def plan(exp, tier):
     all_l['lemma_lerp_precise'] = opscore.lerp_lemma()
     for dim in (2, 3):
         add_conversions(u, dim)
+        add_more_conversions(u, dim)
         add_conv_theorems(u, dim, lsd[2], lsd[3], lc)
     for lm in all_l.values():
         if lm.name != 'lemma_lerp_precise':
@@ -418,5 +500,4 @@ def plan(exp, tier):
         p.add_unit('c14_mat%d' % deg, um, ['ops', 'vec', 'quaternion', 'transform', 'mat', 'geom', 'bezier'])
         p.lemmas += lm
     p.add_unit('c14', u, ['ops', 'vec', 'quaternion', 'transform', 'mat', 'geom', 'bezier'])
-    p.not_decided += ['From<Range> (core::ops::Range field moves), matrix() coefficient form, 2D<->3D conversion (`map(Into::into)`): not yet under contract']
     return p
